@@ -883,6 +883,18 @@ func (sc *serverConn) consumeRecvWindow(strm *Stream, fr *FrameHeader, n int) {
 		sc.writeWindowUpdate(strm.ID(), n)
 	}
 
+	sc.consumeConnWindow(n)
+}
+
+// consumeConnWindow accounts for n octets of DATA against the connection
+// window and tops it up once it is half used. Every DATA frame counts, also
+// one whose stream is refused or reset: the peer has spent the window either
+// way, and not handing it back leaks it for the rest of the connection.
+func (sc *serverConn) consumeConnWindow(n int) {
+	if n <= 0 {
+		return
+	}
+
 	sc.currentWindow -= int32(n)
 	if sc.currentWindow < sc.maxWindow/2 {
 		inc := sc.maxWindow - sc.currentWindow
@@ -1084,6 +1096,9 @@ func (sc *serverConn) handleFrame(strm *Stream, fr *FrameHeader) error {
 		strm.recvBody += len(data)
 
 		if sc.maxRequestBodySize > 0 && strm.recvBody > sc.maxRequestBodySize {
+			// the stream is reset, the connection window is not
+			sc.consumeConnWindow(fr.Len())
+
 			return NewResetStreamError(EnhanceYourCalm, "request body is too large")
 		}
 
